@@ -83,6 +83,41 @@ fn apply_common(p: &Path, op: &Value, is_link: bool) -> Result<(), String> {
     Ok(())
 }
 
+/// Lazily unmount every mount point at or below `root` (deepest first).
+pub fn unmount_below(root: &Path) {
+    let rb = root.as_os_str().as_bytes().to_vec();
+    let mounts = std::fs::read("/proc/self/mounts").unwrap_or_default();
+    let mut pts: Vec<Vec<u8>> = Vec::new();
+    for line in mounts.split(|&b| b == b'\n') {
+        let mut it = line.split(|&b| b == b' ');
+        let _dev = it.next();
+        if let Some(mp) = it.next() {
+            // octal escapes (\040 for space) as written by the kernel
+            let mut out = Vec::new();
+            let mut i = 0;
+            while i < mp.len() {
+                if mp[i] == b'\\' && i + 3 < mp.len() && mp[i + 1..i + 4].iter().all(|c| c.is_ascii_digit()) {
+                    let v = (mp[i + 1] - b'0') as u32 * 64 + (mp[i + 2] - b'0') as u32 * 8 + (mp[i + 3] - b'0') as u32;
+                    out.push(v as u8);
+                    i += 4;
+                } else {
+                    out.push(mp[i]);
+                    i += 1;
+                }
+            }
+            if out.len() > rb.len() && out.starts_with(&rb) && out[rb.len()] == b'/' {
+                pts.push(out);
+            }
+        }
+    }
+    pts.sort_by(|a, b| b.len().cmp(&a.len()));
+    for p in pts {
+        if let Ok(c) = CString::new(p) {
+            unsafe { libc::umount2(c.as_ptr(), libc::MNT_DETACH) };
+        }
+    }
+}
+
 fn rm_rf(p: &Path) {
     if let Ok(m) = std::fs::symlink_metadata(p) {
         if m.is_dir() {
@@ -102,11 +137,13 @@ fn rm_rf(p: &Path) {
 }
 
 pub fn wipe(root: &Path) {
+    unmount_below(root);
     rm_rf(root);
 }
 
 pub fn build(root: &Path, fresh: bool, setup: &[Value]) -> Result<(), String> {
     if fresh {
+        unmount_below(root);
         rm_rf(root);
         ioerr("mkdir", root, std::fs::create_dir_all(root))?;
         let c = cstr(root);
@@ -190,6 +227,18 @@ pub fn build(root: &Path, fresh: bool, setup: &[Value]) -> Result<(), String> {
             }
             "rm" => {
                 rm_rf(&p);
+            }
+            "mount" => {
+                // a second file system inside the sandbox (its own st_dev): cross-device behaviour is then the real kernel's
+                ioerr("mkdir", &p, std::fs::create_dir_all(&p))?;
+                let c = cstr(&p);
+                let ty = CString::new("tmpfs").unwrap();
+                let opts = CString::new("size=256m,mode=0755").unwrap();
+                let r = unsafe { libc::mount(ty.as_ptr(), c.as_ptr(), ty.as_ptr(), 0, opts.as_ptr() as *const libc::c_void) };
+                if r != 0 {
+                    return Err(format!("mount-unavailable: {:?}: {}", p, std::io::Error::last_os_error()));
+                }
+                apply_common(&p, op, false)?;
             }
             "chmod" => {
                 apply_common(&p, op, false)?;
